@@ -488,6 +488,18 @@ func (c *Ctx) flatten(t []codecEntry, isRead bool, depth int) []leaf {
 		switch {
 		case strings.HasPrefix(e.what, "call:"):
 			callee := ir.Callee(e.call)
+			// the same sub-codec called on mutually exclusive branches (switch arms)
+			// is one wire position, not several
+			alt := false
+			for j := 0; j < k; j++ {
+				p := &t[j]
+				if strings.HasPrefix(p.what, "call:") && p.call != nil && e.call != nil && ir.Callee(p.call) == callee && exclusiveCalls(p.call, e.call) {
+					alt = true
+				}
+			}
+			if alt {
+				continue
+			}
 			if callee != nil && depth < 5 {
 				sub := c.leavesOf(callee, isRead, depth+1)
 				// a struct handed over as a pointer to a local whose variable-length field is
@@ -840,4 +852,34 @@ func localFieldEmpty(al *ssa.Alloc, idx int, at ssa.Instruction, depth int) bool
 		}
 	}
 	return !wholeDirty || cleared
+}
+
+// exclusiveCalls: no execution passes through both calls (neither block reaches the other).
+func exclusiveCalls(a, b *ssa.Call) bool {
+	if a.Parent() != b.Parent() || a.Block() == b.Block() {
+		return false
+	}
+	fn := a.Parent()
+	reach := func(from, to *ssa.BasicBlock) bool {
+		seen := map[int]bool{}
+		var q []*ssa.BasicBlock
+		for _, s := range from.Succs {
+			q = append(q, s)
+		}
+		for len(q) > 0 {
+			x := q[0]
+			q = q[1:]
+			if seen[x.Index] {
+				continue
+			}
+			seen[x.Index] = true
+			if x == to {
+				return true
+			}
+			q = append(q, x.Succs...)
+		}
+		return false
+	}
+	_ = fn
+	return !reach(a.Block(), b.Block()) && !reach(b.Block(), a.Block())
 }
